@@ -35,6 +35,7 @@ type Cred struct {
 	Iss    string
 	Valid  bool
 	Defect string
+	Signer string // assertion: the client whose registered key (and kid) signs it; "" = Iss
 	// a second identity in the form fields, next to a Basic header or an assertion
 	FormID  string
 	FormSec string
@@ -102,7 +103,7 @@ type Op struct {
 	Fault string
 }
 
-var placeCoq = map[string]string{"": "P_body", "body": "P_body", "query": "P_query", "grant-query": "P_grant_query",
+var placeCoq = map[string]string{"": "P_body", "body": "P_body", "overlap": "P_overlap", "query": "P_query", "grant-query": "P_grant_query",
 	"grant-conflict": "P_grant_conflict", "field-conflict": "P_field_conflict"}
 
 // FaultMethods are the storage calls of a code exchange that can be made to fail (model: smethod).
@@ -228,12 +229,13 @@ func (c ClientInfo) Coq() string {
 
 type Options struct {
 	NoPost, NoPKJWT, NoRefresh bool
-	DropRefresh                string // client that loses the refresh_token grant ("" = none)
-	DropCode                   string // client that loses the authorization_code grant
-	LiveGrants                 bool   // the storage hands out the live refresh grant (refstore ext_c07.go)
-	KeepRT                     bool   // the storage does not rotate refresh tokens (refstore ext_c07.go)
-	NoReqObj                   bool   // Config.RequestObjectSupported off
-	Loud                       bool   // the storage returns what it knows NEXT TO the error of a refused lookup (refstore AsLoudStorage)
+	DropRefresh                string            // client that loses the refresh_token grant ("" = none)
+	DropCode                   string            // client that loses the authorization_code grant
+	LiveGrants                 bool              // the storage hands out the live refresh grant (refstore ext_c07.go)
+	KeepRT                     bool              // the storage does not rotate refresh tokens (refstore ext_c07.go)
+	NoReqObj                   bool              // Config.RequestObjectSupported off
+	ReplaceUI                  bool              // the storage replaces the userinfo struct it is handed instead of setting fields (refstore AsStyledStorage)
+	Loud                       bool              // the storage returns what it knows NEXT TO the error of a refused lookup (refstore AsLoudStorage)
 	AuthOther                  map[string]string // client id -> registered auth method outside the four named values
 }
 
@@ -248,7 +250,7 @@ var RODefects = []string{"wrong-key", "wrong-aud", "wrong-iss", "other-client", 
 // RequestObject signs a Request Object (OIDC Core 6.1) for the authorization request o with the key
 // registered for its client (kid k1), or broken as o.RO says.
 func RequestObject(o Op) string {
-	iss, kid := o.Client, "k1"
+	iss, kid := o.Client, KidOf(o.Client)
 	key := opfix.ECKey("client-" + o.Client)
 	claims := map[string]any{"aud": []string{opfix.Issuer}}
 	switch o.RO {
@@ -263,7 +265,7 @@ func RequestObject(o Op) string {
 		if o.Client == "web" {
 			iss = "pkjwt"
 		}
-		key = opfix.ECKey("client-" + iss)
+		key, kid = opfix.ECKey("client-"+iss), KidOf(iss)
 	case "unknown-kid":
 		kid = "k9"
 	}
@@ -343,7 +345,30 @@ const authBase = 1_600_000_000 // auth_time of login stamp k is authBase + k
 
 const UnknownBase = 900 // canonical ids >= UnknownBase were never issued
 
+// KidOf: the key id under which a client's key is registered
+func KidOf(client string) string {
+	if client == "pkjwt2" {
+		return "k2"
+	}
+	return "k1"
+}
+
+// ExtraClients: registrations beyond opfix.StdClients: ids in prefix relation (web / web2 / web22,
+// pkjwt / pkjwt2) and a second private_key_jwt client whose key has another key id.
+func ExtraClients() []*refstore.Client {
+	std := opfix.StdClients()
+	web, pk := *std[0], *std[4]
+	web.ID, web.Secret, web.Redirects, web.PostLogout = "web22", "s22", []string{"https://web22.example.com/cb"}, nil
+	pk.ID, pk.Redirects, pk.PostLogout = "pkjwt2", []string{"https://pk2.example.com/cb"}, nil
+	wk := opfix.ECKey("client-web22")
+	web.Keys = map[string]*jose.JSONWebKey{"k1": {Key: &wk.PublicKey, KeyID: "k1", Algorithm: "ES256", Use: "sig"}}
+	k := opfix.ECKey("client-pkjwt2")
+	pk.Keys = map[string]*jose.JSONWebKey{"k2": {Key: &k.PublicKey, KeyID: "k2", Algorithm: "ES256", Use: "sig"}}
+	return []*refstore.Client{&web, &pk}
+}
+
 type World struct {
+	Gate    *refstore.Gate
 	F       *opfix.Fixture
 	St      *refstore.Store
 	Opts    Options
@@ -403,6 +428,9 @@ func NewWorld(o Options) (*World, error) {
 		k := opfix.ECKey("client-" + id)
 		st.Clients[id].Keys = map[string]*jose.JSONWebKey{"k1": {Key: &k.PublicKey, KeyID: "k1", Algorithm: "ES256", Use: "sig"}}
 	}
+	for _, c := range ExtraClients() {
+		st.Clients[c.ID] = c
+	}
 	for id, m := range o.AuthOther {
 		if c, ok := st.Clients[id]; ok {
 			c.Auth = oidc.AuthMethod(m)
@@ -414,16 +442,13 @@ func NewWorld(o Options) (*World, error) {
 	fo := opfix.Options{NoPost: o.NoPost, NoPKJWT: o.NoPKJWT, NoRefresh: o.NoRefresh, NoReqObj: o.NoReqObj}
 	var f *opfix.Fixture
 	var err error
-	if o.Loud {
-		f, err = opfix.NewWithStorage(st, st.AsLoudStorage(), fo, op.StaticIssuer(opfix.Issuer))
-	} else {
-		f, err = opfix.New(st, fo)
-	}
+	gate := &refstore.Gate{}
+	f, err = opfix.NewWithStorage(st, st.AsStyledStorage(o.Loud, o.ReplaceUI, gate), fo, op.StaticIssuer(opfix.Issuer))
 	if err != nil {
 		return nil, err
 	}
-	w := &World{F: f, St: st, Opts: o, Vers: map[string]bool{}, canonOf: map[string]int{}, realOf: map[int]string{}}
-	for _, c := range opfix.StdClients() { // fixed order
+	w := &World{Gate: gate, F: f, St: st, Opts: o, Vers: map[string]bool{}, canonOf: map[string]int{}, realOf: map[int]string{}}
+	for _, c := range append(opfix.StdClients(), ExtraClients()...) { // fixed order
 		rc := st.Clients[c.ID]
 		ci := ClientInfo{ID: rc.ID, Secret: rc.Secret, Redirects: rc.Redirects, JWT: rc.ATType != 0, Auth: "other", RawAuth: string(rc.Auth)}
 		switch rc.Auth {
@@ -497,8 +522,15 @@ func (w *World) codeString(k int) string {
 }
 
 // Assertion builds a client_assertion. valid: signed by the key registered for iss.
-func Assertion(iss string, defect string) string {
-	key := opfix.ECKey("client-" + iss)
+func Assertion(iss string, defect string) string { return AssertionBy(iss, iss, defect) }
+
+// AssertionBy: an assertion naming iss, signed with the registered key of client signer under that
+// key's id.
+func AssertionBy(iss, signer, defect string) string {
+	if signer == "" {
+		signer = iss
+	}
+	key := opfix.ECKey("client-" + signer)
 	now := time.Now()
 	claims := map[string]any{"iss": iss, "sub": iss, "aud": []string{opfix.Issuer}, "iat": now.Unix(), "exp": now.Add(5 * time.Minute).Unix()}
 	switch defect {
@@ -510,7 +542,7 @@ func Assertion(iss string, defect string) string {
 		claims["iat"] = now.Add(-2 * time.Hour).Unix()
 		claims["exp"] = now.Add(-time.Hour).Unix()
 	}
-	s, err := jose.NewSigner(jose.SigningKey{Algorithm: jose.ES256, Key: &jose.JSONWebKey{Key: key, KeyID: "k1"}}, nil)
+	s, err := jose.NewSigner(jose.SigningKey{Algorithm: jose.ES256, Key: &jose.JSONWebKey{Key: key, KeyID: KidOf(signer)}}, nil)
 	if err != nil {
 		panic(err)
 	}
@@ -547,7 +579,7 @@ func (w *World) applyCred(c Cred, form url.Values) []string {
 		if c.Valid {
 			d = ""
 		}
-		form.Set("client_assertion", Assertion(c.Iss, d))
+		form.Set("client_assertion", AssertionBy(c.Iss, c.Signer, d))
 		form.Set("client_assertion_type", oidc.ClientAssertionTypeJWTAssertion)
 	}
 	return nil
@@ -586,6 +618,10 @@ func str(m map[string]any, k string) string {
 // grant_type in the body and another one in the query string; a decoy credential (code /
 // refresh_token) in the body and the real one in the query string.
 func (w *World) tokenRequest(r opfix.Router, place string, form url.Values, credField, decoy, otherGrant string, basic []string) *opfix.Resp {
+	return opfix.Do(w.F.Handlers[r], w.buildTokenRequest(place, form, credField, decoy, otherGrant, basic))
+}
+
+func (w *World) buildTokenRequest(place string, form url.Values, credField, decoy, otherGrant string, basic []string) *http.Request {
 	body, query := url.Values{}, url.Values{}
 	for k, v := range form {
 		body[k] = v
@@ -613,7 +649,89 @@ func (w *World) tokenRequest(r opfix.Router, place string, form url.Values, cred
 	if len(basic) == 2 {
 		req.SetBasicAuth(url.QueryEscape(basic[0]), url.QueryEscape(basic[1]))
 	}
-	return opfix.Do(w.F.Handlers[r], req)
+	return req
+}
+
+// tokenHTTP builds the HTTP request of a code / refresh operation.
+func (w *World) tokenHTTP(o Op) *http.Request {
+	if o.Kind == "code" {
+		form := url.Values{"grant_type": {"authorization_code"}}
+		if o.Code != 0 {
+			form.Set("code", w.codeString(o.Code))
+		}
+		if o.URI != "" {
+			form.Set("redirect_uri", o.URI)
+		}
+		if o.Ver != "" {
+			form.Set("code_verifier", o.Ver)
+			w.Vers[o.Ver] = true
+		}
+		basic := w.applyCred(o.Cred, form)
+		return w.buildTokenRequest(o.Place, form, "code", w.codeString(DecoyID), "refresh_token", basic)
+	}
+	form := url.Values{"grant_type": {"refresh_token"}}
+	if o.RT != 0 {
+		form.Set("refresh_token", w.realID("rt", o.RT))
+	}
+	if len(o.Scopes) > 0 {
+		form.Set("scope", strings.Join(o.Scopes, " "))
+	}
+	basic := w.applyCred(o.Cred, form)
+	return w.buildTokenRequest(o.Place, form, "refresh_token", w.realID("rt", DecoyID), "authorization_code", basic)
+}
+
+// ExecOverlap sends token request a, holds it inside its first state-dependent storage lookup
+// (refstore.Gate), runs token request b from start to end while a is in flight, then lets a go on.
+// Every wait has a time-out; a request that never answers is the outcome OOther. If b does not
+// answer within 1.5 s while a is held (it waits for a?), a is let go and both are awaited.
+// Answers are projected in the order b, a (the order in which the storage saw them).
+func (w *World) ExecOverlap(a, b Op) (Out, Out) {
+	method := "TokenRequestByRefreshToken"
+	if a.Kind == "code" {
+		method = "AuthRequestByCode"
+	}
+	reqA, reqB := w.tokenHTTP(a), w.tokenHTTP(b)
+	w.Gate.Arm(method)
+	doneA, doneB := make(chan *opfix.Resp, 1), make(chan *opfix.Resp, 1)
+	go func() { doneA <- opfix.Do(w.F.Handlers[a.Router], reqA) }()
+	var respA, respB *opfix.Resp
+	select {
+	case <-w.Gate.Arrived():
+	case respA = <-doneA: // refused before the lookup
+		w.Gate.Disarm()
+	case <-time.After(5 * time.Second):
+		w.Gate.Disarm()
+	}
+	go func() { doneB <- opfix.Do(w.F.Handlers[b.Router], reqB) }()
+	select {
+	case respB = <-doneB:
+	case <-time.After(1500 * time.Millisecond):
+	}
+	w.Gate.Release()
+	if respA == nil {
+		select {
+		case respA = <-doneA:
+		case <-time.After(5 * time.Second):
+		}
+	}
+	if respB == nil {
+		select {
+		case respB = <-doneB:
+		case <-time.After(5 * time.Second):
+		}
+	}
+	out := func(r *opfix.Resp) Out {
+		if r == nil {
+			return Out{Coq: "OOther", Human: "no answer (time-out)"}
+		}
+		return w.tokenOut(r)
+	}
+	ob := out(respB)
+	oa := out(respA)
+	if w.Gate.TimedOut() {
+		oa.Human += " [held request let go by time-out]"
+	}
+	return oa, ob
 }
 
 // tokenOut projects a token endpoint answer.
@@ -672,15 +790,6 @@ func (w *World) tokenOut(resp *opfix.Resp) Out {
 	}
 	t.AT = w.canon(atReal)
 	t.Scope = strList(resp.JSON["scope"])
-	// The id_token subject is an observable only when scope openid was granted: otherwise the
-	// claim is whatever the storage's userinfo mapping leaves there (notes/C04.md).
-	openid := false
-	for _, sc := range t.Scope {
-		openid = openid || sc == "openid"
-	}
-	if !openid {
-		t.Sub = t.ATSub
-	}
 	return Out{Coq: emit.Ctor("OTokens", t.Coq()), Tokens: t, Human: fmt.Sprintf("200 at%d rt%d sub=%s azp=%s scope=%v", t.AT, t.RT, t.Sub, t.Azp, t.Scope)}
 }
 
@@ -759,32 +868,13 @@ func (w *World) Exec(o Op) Out {
 		}
 		return Out{Coq: "OCbFail", Human: fmt.Sprint(resp.Status)}
 	case "code":
-		form := url.Values{"grant_type": {"authorization_code"}}
-		if o.Code != 0 {
-			form.Set("code", w.codeString(o.Code))
-		}
-		if o.URI != "" {
-			form.Set("redirect_uri", o.URI)
-		}
-		if o.Ver != "" {
-			form.Set("code_verifier", o.Ver)
-			w.Vers[o.Ver] = true
-		}
-		basic := w.applyCred(o.Cred, form)
+		req := w.tokenHTTP(o)
 		w.St.FaultMethod, w.St.FaultHit = o.Fault, false
-		resp := w.tokenRequest(o.Router, o.Place, form, "code", w.codeString(DecoyID), "refresh_token", basic)
+		resp := opfix.Do(w.F.Handlers[o.Router], req)
 		w.St.FaultMethod, w.St.FaultHit = "", false
 		return w.tokenOut(resp)
 	case "refresh":
-		form := url.Values{"grant_type": {"refresh_token"}}
-		if o.RT != 0 {
-			form.Set("refresh_token", w.realID("rt", o.RT))
-		}
-		if len(o.Scopes) > 0 {
-			form.Set("scope", strings.Join(o.Scopes, " "))
-		}
-		basic := w.applyCred(o.Cred, form)
-		return w.tokenOut(w.tokenRequest(o.Router, o.Place, form, "refresh_token", w.realID("rt", DecoyID), "authorization_code", basic))
+		return w.tokenOut(opfix.Do(w.F.Handlers[o.Router], w.tokenHTTP(o)))
 	case "revoke":
 		// the storage lets the token expire: it refuses it from now on, though it still holds the record
 		w.St.ExpireRefreshToken(w.realID("rt", o.RT))
